@@ -1,6 +1,6 @@
 (* Property C13 -- arbiter databases never apply or lose a conflicting write silently (single node) *)
 (* Statements only: each theorem restates the proved lemma's statement and is closed by [exact]. *)
-From NunDB Require Import Model.Base Model.Pending Model.Parse Model.Node Proofs.ArbiterHttpProofs.
+From NunDB Require Import Model.Base Model.Pending Model.Parse Model.Node Proofs.ArbiterHttpProofs Model.Cluster Proofs.ConvergeProofs Proofs.ArbiterClusterProofs.
 Local Open Scope Z_scope.
 
 (* a conflicting versioned write is either refused with nothing changed (no arbiter registered) or held: value kept, key marked in conflict, record stored, notice delivered to every registered arbiter *)
@@ -163,3 +163,260 @@ Theorem C13_arbiter_scenario :
          option_map (fun d : db => watchers_of d "$conflicts") (get_db (fst sc4) "d3") = Some [0%nat; 1%nat].
 Proof. exact arbiter_scenario. Qed.
 Print Assumptions C13_arbiter_scenario.
+
+(* cluster part. On the primary an accepted resolve queues exactly two lines for replication (the record turned 'resolved', then the resolve itself) and changes the database as db_resolve says *)
+Theorem C13_resolve_queues_lines :
+  forall (n : node) (c : nat) (opid : N) (dbn key value : str) (ver : Z) (d : db),
+         is_primary n = true ->
+         s_db (get_sess n c) = Some dbn ->
+         get_db n dbn = Some d ->
+         snd (handle n c (RqResolve opid dbn key value ver)) = ROk ->
+         let res := exec n c (RqResolve opid dbn key value ver) in
+         snd res = ROk /\
+         n_repl (fst res) =
+         n_repl n ++
+         [rp_line (n_clock n + 1) (rec_text dbn key opid ("resolved " +++ value));
+          rp_line (n_clock n + 2) (resolve_text opid dbn key ver value)] /\
+         get_db (fst res) dbn = Some (db_resolve d key value ver opid (n_clock n)) /\
+         n_clock (fst res) = (n_clock n + 3)%N /\ frame n (fst res).
+Proof. exact resolve_queues_lines. Qed.
+Print Assumptions C13_resolve_queues_lines.
+
+(* what db_resolve does: record -> 'resolved <value>', key -> the value, writable again exactly when nothing else is pending *)
+Theorem C13_db_resolve_effect :
+  forall (d : db) (key value0 : str) (ver : Z) (opid clk : N) (old : value),
+         nodup_db d ->
+         rec_writable d (rec_key key opid) ->
+         get_value d key = Some old ->
+         -2 <= ver ->
+         (v_ver old <> -2 -> v_ver old < i32_max) ->
+         let d' := db_resolve d key value0 ver opid clk in
+         kval d' (rec_key key opid) = Some ("resolved " +++ value0) /\
+         kstate d' key = Some (value0, res_ver (has_pending_conflict d' key) (v_ver old) ver) /\
+         (forall k : str, k <> key -> k <> rec_key key opid -> get_value d' k = get_value d k).
+Proof. exact db_resolve_effect. Qed.
+Print Assumptions C13_db_resolve_effect.
+
+(* a conflicting write on the primary queues one line (the record); the key keeps its value, marked in conflict *)
+Theorem C13_conflict_queues_lines :
+  forall (n : node) (c : nat) (key value0 : str) (ver : Z) (dbn : str) (d : db) (old : value),
+         is_primary n = true ->
+         guard_safe n c key PWrite = GGo dbn d ->
+         d_strat d = SArbiter ->
+         has_arbiter d = true ->
+         get_value d key = Some old ->
+         ver_refused {| c_key := key; c_val := value0; c_ver := ver; c_opp := n_clock n; c_resolve := false |}
+           old = true ->
+         let rmsg :=
+           conflict_notice dbn d
+             {| c_key := key; c_val := value0; c_ver := ver; c_opp := n_clock n; c_resolve := false |} old in
+         let res := exec n c (RqSet key value0 ver) in
+         snd res = RError ("$$conflitct unresolved " +++ rec_key key (n_clock n)) /\
+         n_repl (fst res) = n_repl n ++ [rp_line (n_clock n + 2) (rec_text dbn key (n_clock n) rmsg)] /\
+         get_db (fst res) dbn = Some (db_conflict d key old (rec_key key (n_clock n)) rmsg (n_clock n + 1)) /\
+         n_clock (fst res) = (n_clock n + 3)%N /\ frame n (fst res).
+Proof. exact conflict_queues_lines. Qed.
+Print Assumptions C13_conflict_queues_lines.
+
+(* a replica in agreement before executes the two queued lines and is in agreement after: same value, same version, still in conflict exactly when the primary is *)
+Theorem C13_resolve_lines_apply_on_secondary :
+  forall (s : node) (l : nat) (opid : N) (dbn key value : str) (ver : Z) (dp ds : db) (cp : N),
+         (opid < 2 ^ 64)%N ->
+         simple_tok dbn ->
+         simple_tok key ->
+         ClusterProofs.no_nl value ->
+         ClusterProofs.no_semi_end value ->
+         ClusterProofs.is_i32 ver ->
+         s_auth (get_sess s l) = true ->
+         sess_is_primary (get_sess s l) = true ->
+         get_db s dbn = Some ds ->
+         nodup_db dp ->
+         nodup_db ds ->
+         rec_writable dp (rec_key key opid) ->
+         rec_writable ds (rec_key key opid) ->
+         agree key dp ds ->
+         let s' :=
+           run_reqs s l [rec_text dbn key opid ("resolved " +++ value); resolve_text opid dbn key ver value] in
+         exists ds' : db,
+           get_db s' dbn = Some ds' /\
+           nodup_db ds' /\
+           agree key (db_resolve dp key value ver opid cp) ds' /\
+           has_pending_conflict ds' key = has_pending_conflict (db_resolve dp key value ver opid cp) key /\
+           same_sess s s' /\ n_role s' = n_role s.
+Proof. exact resolve_lines_apply_on_secondary. Qed.
+Print Assumptions C13_resolve_lines_apply_on_secondary.
+
+(* the same through the link (rp envelope, acknowledgement) *)
+Theorem C13_resolve_lines_delivered :
+  forall (s : node) (l : nat) (id1 id2 opid : N) (dbn key value : str) (ver : Z) (dp ds : db) (cp : N),
+         (id1 < 2 ^ 64)%N ->
+         (id2 < 2 ^ 64)%N ->
+         (opid < 2 ^ 64)%N ->
+         simple_tok dbn ->
+         simple_tok key ->
+         ClusterProofs.no_nl value ->
+         ClusterProofs.no_semi_end value ->
+         ClusterProofs.is_i32 ver ->
+         s_auth (get_sess s l) = true ->
+         sess_is_primary (get_sess s l) = true ->
+         get_db s dbn = Some ds ->
+         nodup_db dp ->
+         nodup_db ds ->
+         rec_writable dp (rec_key key opid) ->
+         rec_writable ds (rec_key key opid) ->
+         agree key dp ds ->
+         let s1 := deliver_node s l (rp_line id1 (rec_text dbn key opid ("resolved " +++ value))) in
+         let s2 := deliver_node s1 l (rp_line id2 (resolve_text opid dbn key ver value)) in
+         exists ds' : db,
+           get_db s2 dbn = Some ds' /\
+           nodup_db ds' /\
+           agree key (db_resolve dp key value ver opid cp) ds' /\
+           has_pending_conflict ds' key = has_pending_conflict (db_resolve dp key value ver opid cp) key /\
+           same_sess s s2.
+Proof. exact resolve_lines_delivered. Qed.
+Print Assumptions C13_resolve_lines_delivered.
+
+(* the replica stores the record of a conflict with the same text; its key is NOT marked (see the refutation below): values and pending records agree *)
+Theorem C13_conflict_lines_apply_on_secondary :
+  forall (s : node) (l : nat) (dbn key : str) (opid : N) (rmsg : str) (dp ds : db) 
+           (old : value) (cp : N),
+         simple_tok dbn ->
+         simple_tok key ->
+         ClusterProofs.no_nl rmsg ->
+         ClusterProofs.no_semi_end rmsg ->
+         s_auth (get_sess s l) = true ->
+         get_db s dbn = Some ds ->
+         nodup_db dp ->
+         nodup_db ds ->
+         vagree key dp ds ->
+         get_value dp key = Some old ->
+         rec_writable dp (rec_key key opid) ->
+         rec_writable ds (rec_key key opid) ->
+         let s' := run_reqs s l [rec_text dbn key opid rmsg] in
+         let dp' := db_conflict dp key old (rec_key key opid) rmsg cp in
+         exists ds' : db,
+           get_db s' dbn = Some ds' /\
+           nodup_db ds' /\
+           nodup_db dp' /\
+           kstate dp' key = Some (v_val old, -2) /\
+           kstate ds' key = kstate ds key /\
+           kval dp' (rec_key key opid) = Some rmsg /\
+           kval ds' (rec_key key opid) = Some rmsg /\
+           vagree key dp' ds' /\ same_sess s s' /\ n_role s' = n_role s.
+Proof. exact conflict_lines_apply_on_secondary. Qed.
+Print Assumptions C13_conflict_lines_apply_on_secondary.
+
+(* refutation of the stronger reading: after a conflict the primary holds k at version -2, the replica still at its old version *)
+Theorem C13_replica_key_not_marked_refuted :
+  n_repl (fst ex_st1) = n_repl ex_p0 ++ ["rp 22 replicate d $conflicts_k_20 -1 resolve 20 d 1 k b c"] /\
+         option_map (fun d : db => kstate d "k") (get_db (fst ex_st1) "d") = Some (Some ("b", -2)) /\
+         option_map (fun d : db => kstate d "k") (get_db (snd ex_st1) "d") = Some (Some ("b", 1)).
+Proof. exact replica_key_not_marked. Qed.
+Print Assumptions C13_replica_key_not_marked_refuted.
+
+(* any sequence of conflicts and resolutions of a key executed on the primary, each followed by its queued lines on the replica: both hold the same value, the value of the last resolution, and the same pending records *)
+Theorem C13_replica_holds_resolution :
+  forall (c l : nat) (dbn key : str),
+         simple_tok dbn ->
+         simple_tok key ->
+         forall (B : Z) (n s : node) (evs : list aev),
+         PInv c l dbn key B n s ->
+         ok_run c l dbn key B (n, s) evs ->
+         B + 2 * Z.of_nat (Datatypes.length evs) < i32_max ->
+         let ns' := run c l dbn key (n, s) evs in
+         exists dp' ds' : db,
+           get_db (fst ns') dbn = Some dp' /\
+           get_db (snd ns') dbn = Some ds' /\
+           kval ds' key = kval dp' key /\
+           kval dp' key = last_res evs (kval_n dbn key n) /\
+           has_pending_conflict ds' key = has_pending_conflict dp' key /\
+           (forall ck : str, pend_text ds' key ck = pend_text dp' key ck).
+Proof. exact C13_replica_holds_resolution. Qed.
+Print Assumptions C13_replica_holds_resolution.
+
+Theorem C13_replica_after_resolve :
+  forall (c l : nat) (dbn key : str),
+         simple_tok dbn ->
+         simple_tok key ->
+         forall (B : Z) (n s : node) (evs : list aev) (opid : N) (v : str) (ver : Z),
+         PInv c l dbn key B n s ->
+         ok_run c l dbn key B (n, s) (evs ++ [AResolve opid v ver]) ->
+         B + 2 * Z.of_nat (Datatypes.length (evs ++ [AResolve opid v ver])) < i32_max ->
+         let ns' := run c l dbn key (n, s) (evs ++ [AResolve opid v ver]) in
+         exists dp' ds' : db,
+           get_db (fst ns') dbn = Some dp' /\
+           get_db (snd ns') dbn = Some ds' /\
+           kval dp' key = Some v /\
+           kval ds' key = Some v /\ has_pending_conflict ds' key = has_pending_conflict dp' key.
+Proof. exact C13_replica_after_resolve. Qed.
+Print Assumptions C13_replica_after_resolve.
+
+(* with an arbiter that answers the version it was quoted, the replica's version equals the primary's whenever the key is free *)
+Theorem C13_replica_version :
+  forall (c l : nat) (dbn key : str),
+         simple_tok dbn ->
+         simple_tok key ->
+         forall (B : Z) (n s : node) (evs : list aev),
+         PInv c l dbn key B n s ->
+         ok_run c l dbn key B (n, s) evs ->
+         faithful_run c l dbn key (n, s) evs ->
+         B + 2 * Z.of_nat (Datatypes.length evs) < i32_max ->
+         vcoupled dbn key n s ->
+         let ns' := run c l dbn key (n, s) evs in
+         forall dp' ds' : db,
+         get_db (fst ns') dbn = Some dp' ->
+         get_db (snd ns') dbn = Some ds' -> kver dp' key <> Some (-2) -> kstate ds' key = kstate dp' key.
+Proof. exact C13_replica_version. Qed.
+Print Assumptions C13_replica_version.
+
+(* an arbiter answering another version: same value, different versions (primary 8, replica 2) *)
+Theorem C13_replica_version_differs :
+  aev_ok 0 "d" "k" 7 (fst ex_st1) (AResolve 20 "X" 7) /\
+         option_map (fun d : db => kstate d "k") (get_db (fst ex_st2_bad) "d") = Some (Some ("X", 8)) /\
+         option_map (fun d : db => kstate d "k") (get_db (snd ex_st2_bad) "d") = Some (Some ("X", 2)).
+Proof. exact replica_version_differs. Qed.
+Print Assumptions C13_replica_version_differs.
+
+(* the resolved record is written twice on a replica: record versions differ (1 vs 2) *)
+Theorem C13_record_versions_differ :
+  option_map (fun d : db => kstate d "$conflicts_k_20") (get_db (fst ex_st2_good) "d") =
+         Some (Some ("resolved X", 1)) /\
+         option_map (fun d : db => kstate d "$conflicts_k_20") (get_db (snd ex_st2_good) "d") =
+         Some (Some ("resolved X", 2)).
+Proof. exact record_versions_differ. Qed.
+Print Assumptions C13_record_versions_differ.
+
+(* the records of a key are exactly the live keys starting with $conflicts_<key>_, whatever characters the key contains (fix: keys containing '*') *)
+Theorem C13_list_conflicts_keys_iff :
+  forall (d : db) (key k : str),
+         nodup_db d ->
+         In k (list_conflicts_keys d key) <->
+         (exists v : value,
+            get_value d k = Some v /\
+            vstate_eqb (v_st v) VDeleted = false /\ starts_with k (rec_prefix key) = true).
+Proof. exact list_conflicts_keys_iff. Qed.
+Print Assumptions C13_list_conflicts_keys_iff.
+
+(* key a*b: two queued conflicts stay pending until both are resolved *)
+Theorem C13_star_key_conflicts_queue :
+  option_map
+           (fun d : db =>
+            (kstate d "a*b", kval d "$conflicts_a*b_24", kval d "$conflicts_a*b_27",
+             list_conflicts_keys d "a*b", has_pending_conflict d "a*b")) (get_db ex_star1 "d") =
+         Some
+           (Some ("X", -2), Some "resolved X", Some "resolve 27 d 1 a*b $conflicts_a*b_24 e",
+            ["$conflicts_a*b_24"; "$conflicts_a*b_27"], true) /\
+         option_map (fun d : db => (kstate d "a*b", kval d "$conflicts_a*b_27", has_pending_conflict d "a*b"))
+           (get_db ex_star2 "d") = Some (Some ("Y", 2), Some "resolved Y", false).
+Proof. exact star_key_conflicts_queue. Qed.
+Print Assumptions C13_star_key_conflicts_queue.
+
+(* the hypotheses of the run theorem are satisfiable (concrete pair of nodes) *)
+Theorem C13_run_example :
+  exists dp' ds' : db,
+           get_db (fst (run 0 0 "d" "k" (ex_p0, ex_s0) ex_evs)) "d" = Some dp' /\
+           get_db (snd (run 0 0 "d" "k" (ex_p0, ex_s0) ex_evs)) "d" = Some ds' /\
+           kval dp' "k" = Some "Y" /\
+           kval ds' "k" = Some "Y" /\ has_pending_conflict ds' "k" = has_pending_conflict dp' "k".
+Proof. exact ex_run_theorem. Qed.
+Print Assumptions C13_run_example.
